@@ -105,6 +105,10 @@ class FastHierarchyAnalyzer(HierarchyAnalyzerBase):
             # Generate graph
             taken_sel_opt = [X_INACTIVE_VALUE for _ in range(len(opt_idx_try))]
             while True:
+                # An infeasible graph cannot be resolved further: let the caller try a neighboring design vector
+                if not graph.feasible:
+                    return tuple(taken_sel_opt), graph
+
                 # Get next selection-choice node
                 choice_nodes = graph.get_ordered_next_choice_nodes()
                 if len(choice_nodes) == 0:
